@@ -339,6 +339,21 @@ pub fn panic_site(msg: &str) -> String {
 
 const STACK: usize = 2 << 30;
 
+// utime + stime of this process in milliseconds (from /proc/self/stat, 100 Hz ticks).
+pub fn process_cpu_ms() -> u64 {
+    if let Ok(s) = fs::read_to_string("/proc/self/stat") {
+        if let Some(p) = s.rfind(')') {
+            let f: Vec<&str> = s[p + 2..].split(' ').collect();
+            if f.len() > 13 {
+                let u: u64 = f[11].parse().unwrap_or(0);
+                let k: u64 = f[12].parse().unwrap_or(0);
+                return (u + k) * 10;
+            }
+        }
+    }
+    0
+}
+
 pub fn worker_main(prop: &'static dyn Prop, tier: Tier, seed: u64, shard: u64, nshards: u64, start: u64, run_dir: &str) -> i32 {
     install_panic_hook();
     colored::control::set_override(false);
@@ -347,7 +362,9 @@ pub fn worker_main(prop: &'static dyn Prop, tier: Tier, seed: u64, shard: u64, n
     let progress = fs::OpenOptions::new().create(true).write(true).truncate(false).open(format!("{run_dir}/progress.{shard}")).expect("progress file");
     let mut hash_file = fs::OpenOptions::new().create(true).append(true).open(format!("{run_dir}/hashes.{shard}")).expect("hash file");
     let out = Arc::new(Mutex::new(std::io::stdout()));
-    // Watchdog state: (case serial, start millis)
+    // Watchdog state: (case serial, start millis). The limit is on the CPU time this process has
+    // used since the case began (what the machine is doing besides does not count), with a
+    // wall-clock backstop of eight times the limit for cases that wait on child processes.
     let case_serial = Arc::new(AtomicU64::new(0));
     let case_started = Arc::new(AtomicU64::new(0));
     let t0 = Instant::now();
@@ -357,15 +374,26 @@ pub fn worker_main(prop: &'static dyn Prop, tier: Tier, seed: u64, shard: u64, n
         let out = out.clone();
         let limit_ms = plan.case_timeout_s * 1000;
         thread::spawn(move || {
+            // CPU time at the first tick that saw the current case (the worker loop itself never
+            // pays for reading /proc)
+            let (mut seen_serial, mut seen_cpu) = (0u64, 0u64);
             loop {
                 thread::sleep(Duration::from_millis(200));
                 let s = case_serial.load(Ordering::SeqCst);
                 if s == 0 || s == u64::MAX {
                     continue;
                 }
+                if s != seen_serial {
+                    seen_serial = s;
+                    seen_cpu = process_cpu_ms();
+                    continue;
+                }
                 let st = case_started.load(Ordering::SeqCst);
+                let st_cpu = seen_cpu;
                 let now = t0.elapsed().as_millis() as u64;
-                if now.saturating_sub(st) > limit_ms && case_serial.load(Ordering::SeqCst) == s {
+                let cpu_over = process_cpu_ms().saturating_sub(st_cpu) > limit_ms;
+                let wall_over = now.saturating_sub(st) > limit_ms * 8;
+                if (cpu_over || wall_over) && case_serial.load(Ordering::SeqCst) == s {
                     let mut g = out.lock().unwrap();
                     let _ = writeln!(g, "{}", Json::obj().set("t", Json::s("T")).dump());
                     let _ = g.flush();
